@@ -182,6 +182,13 @@ def _split_case(draw):
     # one to three split strings for different residue names; the names of the new residues come from a
     # small pool and may be reused by different strings
     chosen = draw(st.lists(st.sampled_from(cands), min_size=1, max_size=3, unique_by=lambda c: c[0]))
+    for _rn, rd in chosen:
+        if len(rd["atoms"]) >= 3 and draw(st.integers(0, 2)) == 0:
+            # atom names of which one is the beginning of others (C1, C10, C11 ...)
+            stem = rd["atoms"][0]["name"]
+            for k in range(2, len(rd["atoms"])):
+                rd["atoms"][k]["name"] = f"{stem}{k - 2}"
+            spec["nested_atom_names"] = True
     # residue numbers with gaps (1, 2, 5, ...) in some molecule types, and new residue names that may equal
     # the name of another residue of the system
     for mt in spec["moltypes"]:
